@@ -549,6 +549,12 @@ def build_evidence(mod, tier, verif_seed, executed, results, wall, viols, known_
     for r in executed:
         for s in r.get("known", []):
             hits[s] += 1
+    extra = {}
+    if hasattr(mod, "evidence_extra"):
+        try:
+            extra = mod.evidence_extra(states)
+        except Exception as e:  # noqa: BLE001
+            extra = {"evidence_extra_error": repr(e)}
     return {
         "property_id": mod.PROP,
         "tier": tier,
@@ -579,6 +585,7 @@ def build_evidence(mod, tier, verif_seed, executed, results, wall, viols, known_
             "stub_components": getattr(mod, "STUBS", []),
             "white_box_reads": getattr(mod, "WHITE_BOX", []),
             "known_findings_hit": dict(hits),
+            **extra,
         },
         "assumptions": getattr(mod, "ASSUMPTIONS", []) + [
             "numpy/scipy/pandas/scikit-learn are trusted (reference models use them too)",
